@@ -20,7 +20,7 @@ for d in sorted(glob.glob(os.path.join(V, "seeded", "*-*"))):
     v = m.get("verified_here", "")
     note = v.split(" ; ", 1)[1] if " ; " in v else ""
     tot += 1
-    if note.startswith("missed"):
+    if note.startswith("missed") or note.startswith("at first"):
         missed += 1; fo = "missed; " + note.split(":", 1)[-1].strip() if ":" in note else note
     elif note.startswith("first caught only"):
         other += 1; fo = note
